@@ -245,6 +245,40 @@ def growth_hook(container):
     return hook
 
 
+def trim_hook(container):
+    """C20: a successful trim leaves the documented minimum capacity (the element count, never below 1; for deques the
+    smallest power of two that holds the elements), read from the C side's own phys section"""
+    def hook(h, ops, c_lines):
+        out = []
+        for i, op in enumerate(ops):
+            name = op.split()[0]
+            if name not in ("trim", "trim_capacity") or i >= len(c_lines):
+                continue
+            cs = vlib.sections(c_lines[i])
+            if len(cs) < 2 or not re.search(r"\bst=0\b", cs[0]):
+                continue
+            mo = re.search(r"\bo=(\d+)", op)
+            k = mo.group(1) if mo else "0"
+            if container == "deque":
+                ms, mc = re.search(rf"\bd{k}\.size=(\d+)", cs[1]), re.search(rf"\bd{k}\.cap=(\d+)", cs[1])
+            else:
+                ms, mc = re.search(rf"\bsize{k}=(\d+)", cs[1]), re.search(rf"\bcap{k}=(\d+)", cs[1])
+            if not ms or not mc:
+                continue
+            size, cap = int(ms.group(1)), int(mc.group(1))
+            if container == "deque":
+                ok = cap >= max(size, 1) and cap & (cap - 1) == 0 and (cap == 1 or cap // 2 < size)
+                want = "the smallest power of two >= max(size, 1)"
+            else:
+                ok = cap == max(size, 1)
+                want = "max(size, 1)"
+            if not ok:
+                out.append(Diff("trim-minimum", h, i, op, f"object {k}: capacity {cap} after a successful trim with {size} "
+                                f"elements; documented minimum is {want}", "L2"))
+        return out
+    return hook
+
+
 def run_container(P, pid, cspec, tier, seed):
     """all streams of one container; returns dict(stats, violations, fidelity, samples, problems)"""
     container = cspec["container"]
@@ -263,6 +297,8 @@ def run_container(P, pid, cspec, tier, seed):
         return out
     if cspec.get("growth_count"):
         runner.hooks.append(growth_hook(container))
+    if pid == "C20" and container in ("array", "array_sized", "deque"):
+        runner.hooks.append(trim_hook(container))
     focus = cspec.get("focus")
     batches = []
     corp = [ops for name, ops in corpus_histories(container) if not name.startswith("defect_")]
@@ -381,6 +417,8 @@ def run_check(pid, tier, seed, replay=None):
         for cs in P["streams"]:
             if cs["container"] == container and cs.get("growth_count"):
                 r.hooks.append(growth_hook(container))
+        if pid == "C20" and container in ("array", "array_sized", "deque"):
+            r.hooks.append(trim_hook(container))
         res = r.run([ops])
         bad = [d for _, ds in res for d in ds if relevant(P, container, d)]
         for d in bad:
@@ -453,7 +491,8 @@ def run_check(pid, tier, seed, replay=None):
         def pred(ds, kinds=kinds, container=container):
             return any(relevant(P, container, d) and d.layer in ("L1", "L2") and d.kind in kinds for d in ds)
         try:
-            hooks = [growth_hook(container)] if "growth-count" in kinds else []
+            hooks = ([growth_hook(container)] if "growth-count" in kinds else []) + \
+                    ([trim_hook(container)] if "trim-minimum" in kinds else [])
             small = vlib.shrink(container, cut, pred, props.container_opts(container), hooks=hooks)
             r = Runner(container, props.container_opts(container))
             r.hooks = hooks
